@@ -353,8 +353,9 @@ def run(ctx):
         dn = G.declared_null(c); dn = G.NULL_DEFAULT if dn is None else dn
         for row in c['frames']:
             for cell in row[1:]:
-                if cell[0] == 'n':
-                    v = G.dec_to_float(cell[1], cell[2])
+                if cell[0] in 'nl':
+                    v = G.dec_to_float(cell[-2], cell[-1])
+                    if cell[0] == 'l': ctx.count('literal_spelling_cells')
                     if v != dn and abs(v - dn) <= 1e-8 + 1e-5 * abs(dn): ctx.count('cells_close_to_null_not_equal')
                     elif v == dn: ctx.count('cells_equal_to_null')
         for ci, h in enumerate(G.curves_of(c)):
